@@ -69,6 +69,10 @@ def check_mi(ctx, case):
                     must(case, 'MIA.compute between batches', obj.compute)        # must not disturb what follows
         res = must(case, 'MIA.compute', obj.compute)
         if case.get('compute_twice'):
+            _first = np.array(res, copy=True)
+            if isinstance(res, np.ndarray) and res.flags.writeable:
+                res[...] = -12345.0            # the caller owns what compute() returned: overwriting it must not change the next answer
+            res = _first
             res2 = must(case, 'MIA.compute (second call)', obj.compute)
             if not dist.same(res, res2):
                 raise Violation('MIA: two consecutive compute() calls without new data differ', case)
